@@ -664,7 +664,27 @@ def compare(rq, impl, model, ctx):
     ctx["nontrivial"].add(key)
     if math.isnan(v) or math.isinf(v):
         return out + [fail("prop", "result is not finite", ti[0])]
-    if not mc and ti[0] != ti[1]:
+    if not mc and ti[0] != ti[1] and op == "c13.sph":
+        # The property fixes norm, polar angle and azimuth of the vector, not the spelling of its components: a vector
+        # built another way differs by a few ulp per component.  The comparison with the Cartesian overload on
+        # r^2 f(Spherical_Coordinates(r, acos c, phi)) is therefore judged at the rounding level of the integrand's
+        # own conditioning (explicit Lipschitz bound of the generated family sum c r^i ct^j phi^k in (|v|, v_z/|v|,
+        # atan2(v_y,v_x)) under perturbations d|v| <= u|v|, d ct <= u, d phi <= u, u = 8 * 2^-53) for the FIXED-NODE
+        # rules; for adaptive rules an ulp can flip a refinement decision, so there only the accuracy clause decides.
+        # A bitwise difference is a statistic.
+        bump(ctx, "sph:not-bit-identical-to-the-Spherical_Coordinates-spelling")
+        if m in ("Gauss-Legendre", "Gauss-Legendre_2"):
+            Ls = [Fraction(fl(t)) for t in a[2:8]]
+            ts_, _ = _parse_terms(a, 9)
+            Rm = max(abs(Ls[0]), abs(Ls[1])); Pm = max(abs(Ls[4]), abs(Ls[5]), 1)
+            vol = abs(Ls[1] - Ls[0]) * abs(Ls[3] - Ls[2]) * abs(Ls[5] - Ls[4])
+            lip = sum(abs(c) * Rm ** (i + 2) * Pm ** k * (i + j + k + 1) for c, i, j, k in ts_) * vol
+            told = 2 * 8 * EPS * lip
+            _worst(ctx, "sph spelling diff/tol", float(abs(Fraction(v) - Fraction(vn)) / told) if told else 0.0)
+            if abs(Fraction(v) - Fraction(vn)) > told:
+                out.append(fail("prop", "spherical overload differs from the Cartesian overload on r^2 f(Spherical_Coordinates(r, acos c, phi))",
+                                "%r vs %r (rounding-level tolerance %.3g)" % (v, vn, float(told))))
+    elif not mc and ti[0] != ti[1]:
         what = {"c13.int1": "method_parameter 0 differs from the default call", "c13.fam1": "method_parameter 0 differs from the default call",
                 "c13.sph": "spherical overload differs from the Cartesian overload on r^2 f(Spherical_Coordinates(r, acos c, phi))"}.get(
                     op, "Integrate_%s differs from the explicitly nested 1-D calls" % ("2D" if "2" in op else "3D"))
